@@ -137,6 +137,9 @@ func GenProg(r *Rng, cfg ProgCfg) *Prog {
 			p.Help = "ayuda"
 		}
 	}
+	if p.Help != "" && r.Chance(1, 3) {
+		p.HelpAliases = [][]string{{"?"}, {"hh", "?"}, {"H"}}[r.Intn(3)]
+	}
 	ng := &nameGen{r: r, cfg: &cfg}
 	id := 0
 	if cfg.MaxMulti == 0 {
@@ -162,6 +165,9 @@ func GenProg(r *Rng, cfg ProgCfg) *Prog {
 		}
 		if p.Help != "" {
 			taken[p.Help] = true
+			for _, a := range p.HelpAliases {
+				taken[a] = true
+			}
 		}
 		if !isRoot && !c.Unset && cfg.CmdModes && r.Chance(1, 5) {
 			c.Unknown = cfg.Unknowns[r.Intn(len(cfg.Unknowns))]
